@@ -302,4 +302,4 @@ def units(prop):
 
 
 CARRIES = {"C11": ["split_key_root", "split_key_leaf", ":split_key", "is_meta_key", "Namespace.__bool__", "Namespace.as_flat", "Namespace.get_value_and_parent", "namespace_to_dict", "expand_dict", "dict_to_namespace"],
-           "C06": ["split_key_root", "split_key_leaf", ":split_key"], "C15": ["split_key_leaf", ":split_key"], "C08": ["namespace_to_dict", "dict_to_namespace"], "C18": ["is_meta_key"]}
+           "C06": ["split_key_root", "split_key_leaf", ":split_key", "is_meta_key"], "C15": ["split_key_leaf", ":split_key"], "C08": ["namespace_to_dict", "dict_to_namespace"], "C18": ["is_meta_key"]}
